@@ -843,12 +843,12 @@ _ASSUME = [
     "spmc K2: blocking sync forms are exercised only where they return without parking (the harness refuses with WOULDBLOCK otherwise, as the model does)",
 ]
 
-WIT_CLONE_CLOSED = "1 s 0 cn 0 1 cl 0 ts 1 tr 1 ts 2 tr 1 cn 0 2 trb 2 5 ts 3 tr 2 sdr tr 2"
+WIT_CLONE_CLOSED = "1 s %d cn 0 1 cl 0 ts 1 tr 1 ts 2 tr 1 cn 0 2 trb 2 5 ts 3 tr 2 sdr tr 2" % FIXED
 
-WIT_RXCLOSE_NOWAKE = "2 a 0 mr 0 0 pl 0 1 cl 0 pl 0 1"
-WIT_SENDWAKER = "1 a 0 ts 1 ms 0 2 pl 0 0 ms 1 3 pl 1 1 tr 0 pl 0 0 pl 1 1"
-WIT_REOPEN_TX = "2 s 0 scl tr 0 scv ts 1 tr 0 scl"
-WIT_REOPEN_RX = "2 s 0 cn 0 1 cl 0 cv 0 ts 1 tr 0 cl 0"
+WIT_RXCLOSE_NOWAKE = "2 a %d mr 0 0 pl 0 1 cl 0 pl 0 1" % FIXED
+WIT_SENDWAKER = "1 a %d ts 1 ms 0 2 pl 0 0 ms 1 3 pl 1 1 tr 0 pl 0 0 pl 1 1" % FIXED
+WIT_REOPEN_TX = "2 s %d scl tr 0 scv ts 1 tr 0 scl" % FIXED
+WIT_REOPEN_RX = "2 s %d cn 0 1 cl 0 cv 0 ts 1 tr 0 cl 0" % FIXED
 
 PROPS = {
     "C07": {"engines": [_ENG], "witness": {"F-spmc-clone-closed": (_ENG, WIT_CLONE_CLOSED, "C07:clone-of-closed")},
